@@ -21,6 +21,14 @@ Proof. vm_compute. reflexivity. Qed.
 Lemma gen_params_used_ok : forallb tool_params_used_ok gen_tools = true.
 Proof. vm_compute. reflexivity. Qed.
 
+Lemma gen_option_count_ok : forallb option_count_ok gen_tools = true.
+Proof. vm_compute. reflexivity. Qed.
+Lemma gen_unknown_check_ok : forallb unknown_check_ok gen_tools = true.
+Proof. vm_compute. reflexivity. Qed.
+
+Lemma gen_doc_order_ok : forallb tool_doc_order_ok gen_tools = true.
+Proof. vm_compute. reflexivity. Qed.
+
 Lemma in_gen {P : tool -> bool} t : forallb P gen_tools = true -> In t gen_tools -> P t = true.
 Proof. intros H Hin. rewrite forallb_forall in H. auto. Qed.
 
@@ -57,7 +65,7 @@ Proof.
   apply andb_true_iff in H as [_ H]. rewrite forallb_forall in H. specialize (H _ Hin).
   unfold argv_use_ok in H. simpl in H.
   apply existsb_exists in H as (p & Hp & Hc). apply existsb_exists in Hc as (c & Hc & Hk).
-  destruct c as [m| |]; simpl in Hk; try discriminate. apply Nat.ltb_lt in Hk.
+  destruct c as [m| | | |]; simpl in Hk; try discriminate. apply Nat.ltb_lt in Hk.
   pose proof (pre_exit_from_none_argc t argv (t_pre t) p m Hpre Hp Hc). lia.
 Qed.
 
@@ -94,7 +102,7 @@ Lemma argc_check_fires t k argv :
   has_argc_check t k = true -> List.length argv < k -> pre_exit t argv <> None.
 Proof.
   unfold has_argc_check. intros H Hl. apply existsb_exists in H as (p & Hp & Hc).
-  apply existsb_exists in Hc as (c & Hc & Hk). destruct c as [m| |]; try discriminate.
+  apply existsb_exists in Hc as (c & Hc & Hk). destruct c as [m| | | |]; try discriminate.
   apply Nat.leb_le in Hk. eapply pre_exit_from_argc; eauto. lia.
 Qed.
 
@@ -354,4 +362,122 @@ Proof.
   intros Ht Hb _ Hn Hk. pose proof (in_gen t gen_params_used_ok Ht) as H. unfold tool_params_used_ok in H.
   rewrite forallb_forall in H. specialize (H b Hb). unfold params_used_ok in H. apply andb_true_iff in H as [H1 H2].
   destruct Hn as [Hn|Hn]; rewrite Hn in *; apply covers_read; auto.
+Qed.
+
+(* ---------------------------------------------------------------- options are counted before any block runs *)
+Lemma two_in_filter {A} (f : A -> bool) (l : list A) a a' :
+  a <> a' -> In a l -> In a' l -> f a = true -> f a' = true -> 2 <= List.length (filter f l).
+Proof.
+  intros Hne. induction l as [|x l IH]; intros Ha Ha' Hf Hf'; [contradiction|].
+  simpl. destruct Ha as [->|Ha], Ha' as [->|Ha'].
+  - contradiction.
+  - rewrite Hf. simpl. assert (In a' (filter f l)) by (apply filter_In; auto).
+    destruct (filter f l); [contradiction|simpl; lia].
+  - rewrite Hf'. simpl. assert (In a (filter f l)) by (apply filter_In; auto).
+    destruct (filter f l); [contradiction|simpl; lia].
+  - specialize (IH Ha Ha' Hf Hf'). destruct (f x); simpl; lia.
+Qed.
+
+Lemma aliases_found_or_absent argv (al : list tok) :
+  (exists a, In a al /\ In a argv) \/ (forall a, In a al -> find_argument argv a = None).
+Proof.
+  induction al as [|a r IH].
+  - right. intros a [].
+  - destruct IH as [(x & Hx & Hin)|IH]; [left; exists x; simpl; auto|].
+    destruct (find_argument argv a) as [i|] eqn:E.
+    + left. exists a. split; [simpl; auto|]. apply find_argument_some in E as [E _]. eapply nth_error_In; eauto.
+    + right. intros x [<-|Hx]; auto.
+Qed.
+
+Lemma present_alias argv b : present argv b -> exists a, In a (b_aliases b) /\ In a argv.
+Proof.
+  unfold present, block_option. intros H.
+  destruct (aliases_found_or_absent argv (b_aliases b)) as [G|G]; auto.
+  exfalso. apply H. apply alias_loop_absent. exact G.
+Qed.
+
+Lemma pre_exit_none_cond t argv p c :
+  pre_exit t argv = None -> In p (t_pre t) -> In c (pc_conds p) -> cond_holds t argv c = false.
+Proof.
+  intros Hpre Hp Hc. destruct (cond_holds t argv c) eqn:E; auto. exfalso.
+  eapply (pre_exit_from_cond t argv (t_pre t) p c); eauto.
+Qed.
+
+Lemma rejected_runs_nothing_full t argv c :
+  In t gen_tools -> is_dash (hd [] argv) = false ->
+  r_final (run_tool t argv) = FExit c -> r_execs (run_tool t argv) = [].
+Proof.
+  intros Ht Hh Hf. destruct (pre_exit t argv) as [c0|] eqn:Hpre.
+  - unfold run_tool. rewrite Hpre. reflexivity.
+  - destruct (t_blocks t) as [|b0 bs] eqn:Eb.
+    + unfold run_tool. rewrite Hpre, Eb. destruct (existsb _ _); reflexivity.
+    + assert (Hne : t_blocks t <> []) by (rewrite Eb; discriminate).
+      apply (rejected_runs_nothing t argv c Hpre Hne); auto.
+      intros j j' b b' Hj Hj' Hp Hp'.
+      destruct (Nat.eq_dec j j') as [|Hjj]; auto. exfalso.
+      pose proof (in_gen t gen_option_count_ok Ht) as Hoc. unfold option_count_ok in Hoc. rewrite Eb in Hoc.
+      apply existsb_exists in Hoc as (p & Hpin & Hoc). apply existsb_exists in Hoc as (cd & Hcd & Hm).
+      destruct cd as [| | |ign|]; simpl in Hm; try discriminate.
+      pose proof (pre_exit_none_cond t argv p (CManyOptions ign) Hpre Hpin Hcd) as Hfalse. simpl in Hfalse.
+      apply Nat.ltb_ge in Hfalse.
+      destruct (present_alias argv b Hp) as (a & Ha & Hina). destruct (present_alias argv b' Hp') as (a' & Ha' & Hina').
+      pose proof (in_gen t gen_aliases_ok Ht) as Hok. unfold aliases_ok in Hok.
+      apply andb_true_iff in Hok as [Hnd _]. apply nodupb_NoDup in Hnd. unfold all_aliases in *.
+      assert (Haa : a <> a').
+      { intros <-. apply Hjj. eapply (flat_map_NoDup_disj b_aliases (t_blocks t) j j' b b' a); eauto. }
+      rewrite forallb_forall in Hm.
+      assert (Hca : counted_option ign a = true) by (apply Hm; apply in_flat_map; exists b; split; auto; eapply nth_error_In; eauto).
+      assert (Hca' : counted_option ign a' = true) by (apply Hm; apply in_flat_map; exists b'; split; auto; eapply nth_error_In; eauto).
+      assert (Hd : is_dash a = true) by (unfold counted_option in Hca; apply andb_true_iff in Hca as [X _]; exact X).
+      assert (Hd' : is_dash a' = true) by (unfold counted_option in Hca'; apply andb_true_iff in Hca' as [X _]; exact X).
+      destruct argv as [|h rest]; [contradiction|]. simpl in Hh.
+      assert (Hr : In a rest) by (destruct Hina as [<-|X]; [congruence|exact X]).
+      assert (Hr' : In a' rest) by (destruct Hina' as [<-|X]; [congruence|exact X]).
+      pose proof (two_in_filter (counted_option ign) rest a a' Haa Hr Hr' Hca Hca') as H2.
+      unfold num_options in Hfalse. simpl in Hfalse. lia.
+Qed.
+
+(* ---------------------------------------------------------------- typed-option tools reject what they do not know *)
+Lemma unknown_argument_rejected t argv i :
+  In t gen_tools -> has_unknown_check t = true -> help_mode argv = false ->
+  1 <= i < List.length argv -> marked t argv i = false ->
+  exists c, c <> 0%Z /\ r_final (run_tool t argv) = FExit c /\ r_execs (run_tool t argv) = [].
+Proof.
+  intros Ht Hu Hh Hi Hm. destruct (pre_exit t argv) as [c|] eqn:E.
+  - exists c. eapply early_return_nonzero; eauto.
+  - exfalso. unfold has_unknown_check in Hu. apply existsb_exists in Hu as (p & Hp & Hu).
+    apply existsb_exists in Hu as (cd & Hcd & Hk). destruct cd; try discriminate.
+    pose proof (pre_exit_none_cond t argv p CUnknown E Hp Hcd) as Hf. simpl in Hf.
+    unfold unknown_argument in Hf.
+    destruct (find (fun i0 => negb (marked t argv i0)) (seq 1 (List.length argv - 1))) eqn:F; [discriminate|].
+    assert (Hin : In i (seq 1 (List.length argv - 1))) by (apply in_seq; lia).
+    pose proof (find_none _ _ F i Hin) as Hn. cbv beta in Hn. rewrite Hm in Hn. discriminate.
+Qed.
+
+(* a string option followed by something that starts with '-' keeps its default *)
+Lemma string_value_skips_option pre name v post dflt :
+  ~ In name pre -> is_dash v = true -> string_value (pre ++ name :: v :: post) name dflt = dflt.
+Proof. intros H Hv. unfold string_value. rewrite typed_reads_next_token by auto. rewrite Hv. reflexivity. Qed.
+
+(* ---------------------------------------------------------------- documented order = order read *)
+Lemma documented_order_read t b argv i u :
+  In t gen_tools -> In b (t_blocks t) -> block_option argv b = Ret (Some i) ->
+  (num_args argv i = List.length (doc_full b) \/ num_args argv i = List.length (doc_mand b)) ->
+  In u (b_uses b) -> guard_holds (u_guard u) (num_args argv i) = true -> 1 <= u_k u ->
+  exists d, nth_error (if num_args argv i =? List.length (doc_full b) then doc_full b else doc_mand b) (u_k u - 1) = Some d
+            /\ compat d (u_kind u) = true.
+Proof.
+  intros Ht Hb _ Hn Hu Hg Hk.
+  pose proof (in_gen t gen_doc_order_ok Ht) as H. unfold tool_doc_order_ok in H.
+  rewrite forallb_forall in H. specialize (H b Hb). unfold doc_order_ok in H.
+  apply andb_true_iff in H as [H _]. apply andb_true_iff in H as [H _]. apply andb_true_iff in H as [Hfull Hmand].
+  assert (G : forall docs, line_ok b docs = true -> num_args argv i = List.length docs ->
+              exists d, nth_error docs (u_k u - 1) = Some d /\ compat d (u_kind u) = true).
+  { intros docs Hl Hlen. unfold line_ok in Hl. rewrite forallb_forall in Hl. specialize (Hl u Hu).
+    unfold use_follows_doc in Hl. rewrite <- Hlen, Hg in Hl.
+    replace (1 <=? u_k u) with true in Hl by (symmetry; apply Nat.leb_le; exact Hk). simpl in Hl.
+    destruct (nth_error docs (u_k u - 1)) as [d|]; [|discriminate]. exists d; auto. }
+  destruct (Nat.eqb_spec (num_args argv i) (List.length (doc_full b))) as [E|E].
+  - apply G; auto.
+  - destruct Hn as [Hn|Hn]; [contradiction|]. apply G; auto.
 Qed.
